@@ -310,7 +310,7 @@ def run(rep, tier, wd, mutant=None):
     nontrivial = set()
     replayed = 0
     inherited = 0
-    redo = []
+    reran = 0
     taint = {}          # json(history) -> classes reported as broken along that history
 
     def judge(pre, t, st, pre_obs):
@@ -324,32 +324,39 @@ def run(rep, tier, wd, mutant=None):
         if len(set(pool.kind(k) for k in used)) > len(set(pool.cls[k - 1] for k in used)):
             nontrivial.add(json.dumps([t["hist"], op]))
 
-    # dictionary histories, shortest first (the taint of a history comes from its prefixes)
-    for c in sorted((c for c in cases if meta[c["id"]][0] == "dict"), key=lambda c: len(meta[c["id"]][1])):
-        ph, pre, chunk = meta[c["id"]]
-        sts = res[c["id"]]
-        base = len(pre) + 1
-        pre_obs = sts[base - 1].get("obs", [None])[0] if sts[base - 1].get("o") == "ok" else None
-        if pre_obs is None:
-            lim.mismatch("history:" + cvl.outcome(sts[base - 1]), "history could not be re-executed: " + " ; ".join(pre),
-                         {"steps": pre, "observed": sts[:base]})
-            continue
-        for j, t in enumerate(chunk):
-            st = sts[base + 2 * j + 1]
-            if st.get("o") == "skipped" or sts[base + 2 * j].get("o") != "ok":
-                redo.append((pre, t))
+    # dictionary histories, shortest first (the taint of a history comes from its prefixes); transitions
+    # whose batch was cut short by a crash / time-out of an earlier step are re-run one per case
+    dict_cases = [c for c in cases if meta[c["id"]][0] == "dict"]
+    for level in sorted(set(len(meta[c["id"]][1]) for c in dict_cases)):
+        redo = []
+        for c in dict_cases:
+            ph, pre, chunk = meta[c["id"]]
+            if len(pre) != level:
                 continue
-            replayed += 1
-            judge(pre, t, st, pre_obs)
-    # transitions skipped because an earlier step of their batch crashed: one case each
-    if redo:
-        cases2 = [{"id": i, "steps": [{"src": x} for x in pre] + [{"src": "d0 := dd", "obs": ["dd"]},
-                                                                  {"src": op_src(pool, t["op"]), "obs": obs}]}
-                  for i, (pre, t) in enumerate(redo)]
-        res2 = nv.run_cases(cases2, timeout_ms=20000)
-        for i, (pre, t) in sorted(enumerate(redo), key=lambda e: len(e[1][0])):
-            replayed += 1
-            judge(pre, t, res2[i][-1], (res2[i][-2].get("obs") or [None])[0] or {"t": "undef"})
+            sts = res[c["id"]]
+            base = len(pre) + 1
+            pre_obs = sts[base - 1].get("obs", [None])[0] if sts[base - 1].get("o") == "ok" else None
+            for j, t in enumerate(chunk):
+                st = sts[base + 2 * j + 1]
+                if pre_obs is None or st.get("o") in ("skipped", "timeout", "abort") or sts[base + 2 * j].get("o") != "ok":
+                    redo.append((pre, t))
+                    continue
+                replayed += 1
+                judge(pre, t, st, pre_obs)
+        if redo:
+            cases2 = [{"id": i, "steps": [{"src": x} for x in pre] + [{"src": "d0 := dd", "obs": ["dd"]},
+                                                                      {"src": op_src(pool, t["op"]), "obs": obs}]}
+                      for i, (pre, t) in enumerate(redo)]
+            res2 = nv.run_cases(cases2, timeout_ms=60000)
+            for i, (pre, t) in enumerate(redo):
+                replayed += 1
+                reran += 1
+                pre_obs = (res2[i][-2].get("obs") or [None])[0] if res2[i][-2].get("o") == "ok" else None
+                if pre_obs is None:
+                    lim.mismatch("history:" + cvl.outcome(res2[i][-2]), "history could not be re-executed: " + " ; ".join(pre),
+                                 {"steps": pre, "observed": res2[i][:-1]})
+                    continue
+                judge(pre, t, res2[i][-1], pre_obs)
 
     memo_bad = set()    # memoize call sequences with a reported problem (their extensions are not re-reported)
     for c in sorted(cases, key=lambda c: len(c["steps"]) if meta[c["id"]][0] == "memo" else 0):
@@ -424,6 +431,6 @@ def run(rep, tier, wd, mutant=None):
                 rep.sample({"mc_transition": t})
     return dict(distinct=r["distinct"], generated=r["generated"], transitions=len(trans), replayed=replayed,
                 nontrivial=len(nontrivial), pool=pool.src, judged_with_tainted_class=inherited,
-                reports_beyond_cap=lim.dropped, reports_per_key=dict(lim.n),
+                reports_beyond_cap=lim.dropped, rerun_individually=reran, reports_per_key=dict(lim.n),
                 invariants=["RepInv (OneEntryPerClass)", "LenInv (LenIsCardinality)", "LookupInv (LookupTotalOnClass)",
                             "ListInv", "ASSUME NumEqAgrees"])
